@@ -35,6 +35,16 @@ def f_writable(a):
 # ----------------------------------------------------------------------------------------------
 # generator
 # ----------------------------------------------------------------------------------------------
+def kname(k):
+    """Dict key of a field collection.  Keys >= 1000 spell the '__'-join of a sibling's path, so that two distinct
+    field paths join to the same string: 1000 + 100*i + j is "k<i>__k<j>" (j < 50, dict child) or "k<i>__<j-50>"
+    (list child)."""
+    if isinstance(k, int) and k >= 1000:
+        i, j = divmod(k - 1000, 100)
+        return f"k{i}__k{j}" if j < 50 else f"k{i}__{j - 50}"
+    return f"k{k}"
+
+
 def gen_leaf(rnd, allowed, p_bad):
     w = rnd.choice([0, 1, 1, 1, 2, 2, 3, 4, 5, 6, 7, 8, 9, 0, 3])
     if rnd.random() < 0.96:
@@ -75,7 +85,18 @@ def gen_tree(rnd, depth, maxl, P, force=None):
     for x in extra:
         kids.insert(rnd.randint(0, len(kids)), x)
     if force == "M":
-        return ["M", [[i + 1, k] for i, k in enumerate(kids)]]
+        ents = [[i + 1, k] for i, k in enumerate(kids)]
+        if rnd.random() < 0.3:
+            # a sibling field whose own name is the '__'-join of a nested field's path
+            cands = []
+            for i, k in ents:
+                if k[0] == "M" and k[1]:
+                    cands += [1000 + 100 * i + kk for kk, _ in k[1] if isinstance(kk, int) and 0 < kk < 50]
+                elif k[0] == "A" and k[1]:
+                    cands += [1000 + 100 * i + 50 + j for j in range(min(len(k[1]), 9))]
+            if cands:
+                ents.insert(rnd.randint(0, len(ents)), [rnd.choice(cands), gen_leaf(rnd, allowed, p_bad)])
+        return ["M", ents]
     return ["A", kids]
 
 
@@ -86,7 +107,7 @@ def leaf_paths(t, path=()):
     if t[0] == "J":
         return []
     if t[0] == "M":
-        return [x for k, c in t[1] for x in leaf_paths(c, path + (f"k{k}",))]
+        return [x for k, c in t[1] for x in leaf_paths(c, path + (kname(k),))]
     return [x for i, c in enumerate(t[1]) for x in leaf_paths(c, path + (i,))]
 
 
@@ -322,7 +343,7 @@ def mk_py(t):
     if t[0] == "J":
         return mk_junk(t[1])
     if t[0] == "M":
-        return {f"k{k}": mk_py(x) for k, x in t[1]}
+        return {kname(k): mk_py(x) for k, x in t[1]}
     return [mk_py(x) for x in t[1]]
 
 
@@ -339,7 +360,7 @@ def walk_declared(t, obj, annotated, out):
         for k, x in t[1]:
             if x[0] == "J" or (annotated and not has_field(x)):
                 continue
-            walk_declared(x, obj[f"k{k}"], annotated, out)
+            walk_declared(x, obj[kname(k)], annotated, out)
     elif t[0] == "A":
         i = 0
         for x in t[1]:
